@@ -318,6 +318,7 @@ def obligations(ctx: Ctx):
         Ob(f"{P}.F5", "F", "execute bodies: no await, no store to self", [e for e in ENTRY if e.endswith(".execute")], ob_execute),
         Ob(f"{P}.F6", "F", "no mutable default arguments", ["octave_mcp/*"], ob_mutable_defaults),
         Ob(f"{P}.F7", "F", "every memoised function is keyed by arguments whose equality implies they are indistinguishable (no answer depends on which equal-but-distinct argument the process saw first)", ENTRY, framesobs.ob_memo_keys(ENTRY)),
+        Ob(f"{P}.F8", "F", "no function in the closure hands out a mutable module-level object (a shared default policy, a cached schema) that a caller could edit for every later call - except the packaged schema table, whose consumers are proved not to mutate their parameters", ENTRY, framesobs.ob_no_global_escape(ENTRY, {"octave_mcp.schemas.loader:get_builtin_schema": "hands out the packaged SchemaDefinition objects; their consumers (the validator closure) are proved not to store through their parameters (C09.F1.assigns)", "octave_mcp.mcp.compile_grammar:CompileGrammarTool.execute": "the response envelope carries the module's USAGE_HINTS table (str -> str) by reference; execute is an entry point - nothing in the package receives its result, and the server serialises it"})),
         Ob(f"{P}.L1", "L", "frames ∧ A-cpython-det ⇒ results are a function of the arguments", [], ob_lemma),
         Ob(f"{P}.B1", "B", "battery of real calls compared across processes, seeds, cwd, locale, process age, asyncio scheduling", ENTRY, ob_battery, timeout=1200),
     ]
